@@ -7,6 +7,8 @@ pub struct Captured {
     pub level: log::Level,
     pub target: String,
     pub message: String,
+    /// would the endpoint's own logger (trusttunnel::log_utils, max level Trace) have written this record?
+    pub emitted: bool,
 }
 
 struct Cap {
@@ -40,6 +42,7 @@ impl log::Log for Cap {
                 level: record.level(),
                 target: record.target().to_string(),
                 message,
+                emitted: trusttunnel::log_utils::make_stdout_logger().enabled(record.metadata()),
             });
         }
     }
